@@ -293,3 +293,8 @@ package stdlibspec
 //@   ensures result == nameOfHost(u.Host)
 //@ extern (*net/url.URL).EscapedPath(u)
 //@   pure
+
+//@ iface context.Context.Done(c)
+//@   pure
+//@ iface context.Context.Err(c)
+//@   pure
